@@ -24,7 +24,7 @@ from ..rules import tainted_names
 from ..mutate import mutate, remove_stmts, replace_expr, replace_stmt, parse_stmt, parse_expr
 from ..model import AnalysisError
 from .. import x_sre
-from ..x_emit import emissions, PH
+from ..x_emit import emissions, emission_program, PH
 from ..x_valuewalk import alias_expand, xdotted, xunparse, branch_flag, iter_order, always_raises, noreturn_cfg, walk, value_oracle, single_assignment, dict_literal, const_collection
 
 TECHNIQUE = "per-operator constant-folded walk of the directive dispatch on the CFG + exception-class closure + emitted-line event ordering + regex-AST class check + constant folding of the whitespace-substitution pipeline (pattern constants extracted from the source, through locals and module-level compiled regexes) over a bounded domain: every whitespace run up to length 4 over class representatives"
@@ -678,9 +678,36 @@ def rule_text_fidelity(ck, px):
     idx = tparams.index(ws_param[0])
     sites = [c for c in q.calls(px.fi.node) if isinstance(c.func, ast.Name) and c.func.id == "_Text"]
     ck.floor(rid, len(sites), 3, "_Text constructions in _parse")
+    mode_path = "%s.%s" % (px.reader, ws_attr)
+    cfg_ = px.cfg
+
+    _synced = set()
+
+    def _changes_mode(n_):
+        """the reader's mode may change here: a store to it, or a recursive parse of a nested body (directives inside)"""
+        if n_.kind != "stmt":
+            return False
+        if mode_path in q.assigned_paths(n_.ast):
+            return q.dotted(getattr(n_.ast, "value", None)) not in _synced
+        return any(isinstance(c_.func, ast.Name) and c_.func.id == px.fi.name for c_ in q.calls(n_.ast))
+
     for c in sites:
         a = c.args[idx] if idx < len(c.args) else q.kwarg(c, ws_param[0])
-        ck.ob(rid, px.fi, c, a is not None and q.dotted(a) == "%s.%s" % (px.reader, ws_attr), "literal text is tagged with the whitespace mode in force where it was read (%s.%s)" % (px.reader, ws_attr))
+        if a is not None and isinstance(a, ast.Name):
+            # a local copy of the mode: it must have been (re)read from the reader since the mode could last change
+            lv = a.id
+            defs_ = cfg_.stmt_nodes(lambda n_: n_.kind == "stmt" and isinstance(n_.ast, (ast.Assign, ast.AnnAssign)) and lv in q.assigned_paths(n_.ast))
+            stored_vals = {q.dotted(n_.ast.value) for n_ in cfg_.stmt_nodes(lambda n_: n_.kind == "stmt" and isinstance(n_.ast, ast.Assign) and mode_path in q.assigned_paths(n_.ast))} - {None}
+            if not defs_ or not all(q.dotted(d_.ast.value) == mode_path or (mode_path in q.assigned_paths(d_.ast)) or q.dotted(d_.ast.value) in stored_vals for d_ in defs_):
+                raise AnalysisError("_parse: whitespace mode passed to _Text comes from %s, whose definitions are not reads of %s" % (lv, mode_path))
+            def_ids = {d_.id for d_ in defs_}
+            _synced.clear()
+            _synced.update({lv} | {q.dotted(d_.ast.value) for d_ in defs_ if q.dotted(d_.ast.value) in stored_vals})
+            facts_ = must_facts(cfg_, gen_node=lambda n_: [("@fresh", True)] if n_.id in def_ids else [], kill_node=lambda n_, f_: f_[0] == "@fresh" and n_.id not in def_ids and _changes_mode(n_), cond_facts=False)
+            for nd in cfg_.nodes_for(c):
+                ck.ob(rid, px.fi, c, ("@fresh", True) in facts_[nd.id], "literal text is tagged with the whitespace mode in force where it was read: the local copy %s of %s is re-read after every nested parse / directive that may change it" % (lv, mode_path), construct="stale whitespace mode %s" % q.normalize_construct(c, q.local_names(px.fi.node)))
+            continue
+        ck.ob(rid, px.fi, c, a is not None and q.dotted(a) == mode_path, "literal text is tagged with the whitespace mode in force where it was read (%s)" % mode_path)
     # the whitespace directive changes the reader's mode
     stores = []
     for v in px.domain:
@@ -1202,7 +1229,7 @@ def rule_gen_structure(ck, px):
                 continue
             n_text += 1
             ck.ob(rid, init, st[0], len(st) == 1 and q.dotted(st[0].value) == attr, "%s keeps the %s text it was constructed with" % (cls, attr))
-            used = [e for e in emissions(g.node, receiver=_writer_param(g)) if any(q.dotted(x) == "self." + attr for x in e.exprs)]
+            used = [e for e in emission_program(ck.repo, g, _writer_param(g))[1] if any(q.dotted(x) == "self." + attr for x in e.exprs)]
             ck.ob(rid, g, used[0].call if used else g.node, len(used) == 1, "%s.generate emits that %s text exactly once" % (cls, attr), construct="%s emits self.%s x%d" % (cls, attr, len(used)))
     ck.floor(rid, n_text, 4, "text-carrying node classes")
     # the writer: default indentation, indent_size, printed line
@@ -1525,6 +1552,7 @@ MUTANTS = [
     ("for body parsed with the outer loop marker", _in("_parse", _parse_call_arg(0, "in_loop")), "C19.recursion-scope"),
     ("set emits the whole directive", _in("_parse", replace_expr(lambda n: isinstance(n, ast.Call) and _u(n) == "_Statement(suffix, line)", lambda n: parse_expr("_Statement(contents, line)"))), "C19.statement-text"),
     ("control block emits only the operand", _in("_parse", replace_expr(lambda n: isinstance(n, ast.Call) and _u(n).startswith("_ControlBlock(contents"), lambda n: parse_expr("_ControlBlock(suffix, line, block_body)"))), "C19.statement-text"),
+    ("seeded C19-adv3: whitespace mode cached in a per-call local (changes made in nested blocks do not reach the outer frame)", _in("_parse", lambda fn: (replace_expr(lambda n: isinstance(n, ast.Attribute) and _u(n) == "reader.whitespace" and isinstance(n.ctx, ast.Load), lambda n: ast.Name(id="ws_mode", ctx=ast.Load()), limit=9)(fn) and replace_stmt(lambda st: isinstance(st, ast.Assign) and _u(st.targets[0]) == "reader.whitespace", lambda st: [st, parse_stmt("ws_mode = mode")])(fn) and (fn.body.insert(0, parse_stmt("ws_mode = reader.whitespace")) or True))), "C19.text-fidelity"),
     ("whitespace directive does not change the reader mode", _in("_parse", remove_stmts(lambda st: isinstance(st, ast.Assign) and _u(st.targets[0]) == "reader.whitespace")), "C19.text-fidelity"),
     ("text before a directive gets the template default mode", _in("_parse", replace_expr(lambda n: isinstance(n, ast.Call) and _u(n).startswith("_Text(cons"), lambda n: parse_expr("_Text(cons, reader.line, 'all')"))), "C19.text-fidelity"),
     ("literal text emitted with %s inside quotes", _in("_Text.generate", replace_expr(lambda n: isinstance(n, ast.BinOp) and isinstance(n.op, ast.Mod), lambda n: parse_expr("'_tt_append(b\"%s\")' % value"))), "C19.text-fidelity"),
